@@ -487,3 +487,18 @@ func (im *Image) Alter(file string, pos int, mask byte) {
 	d[pos] ^= mask
 	im.files[file] = &inode{data: d}
 }
+
+// Resize truncates (delta < 0) or extends with zero bytes (delta > 0) a file of the image.
+func (im *Image) Resize(file string, delta int) {
+	nd := im.files[file]
+	if nd == nil {
+		return
+	}
+	n := len(nd.data) + delta
+	if n < 0 {
+		n = 0
+	}
+	d := make([]byte, n)
+	copy(d, nd.data)
+	im.files[file] = &inode{data: d}
+}
